@@ -84,6 +84,12 @@ func runC01(c *Collector, r *Rng, thorough bool) {
 	cfg := BucketCfg{Spell: true, Max: 5, Csig: 1}
 	fail := func(key, desc string, rep map[string]any) { c.Fail("C01/"+key, desc, rep) }
 	bigCfg := BucketCfg{Spell: true, Max: 40, Csig: 1}
+	var delayed []func()
+	defer func() {
+		for _, f := range delayed {
+			f()
+		}
+	}()
 	for _, k := range keys {
 		signer, verifier := k.signer(), k.verifier()
 		// signer / verifier built from a COSE_Key (EC2 and OKP only)
@@ -185,6 +191,14 @@ func runC01(c *Collector, r *Rng, thorough bool) {
 				}
 				if err := m2.Verify(ext, verifier); err != nil {
 					fail("sign1-wire", "signed message does not verify after a wire round trip: "+err.Error(), rep)
+				} else {
+					// ... and still verifies later, after other messages have been decoded and verified in between
+					mm, ee, vv, rr := &m2, ext, verifier, map[string]any{"alg": k.alg.String(), "key": k.name, "data": hx(trimTo(b, 300))}
+					delayed = append(delayed, func() {
+						if err := mm.Verify(ee, vv); err != nil {
+							fail("sign1-wire-later", "a decoded message that verified stops verifying after other messages were decoded: "+err.Error(), rr)
+						}
+					})
 				}
 				// detached payload
 				det := *m
@@ -479,6 +493,19 @@ func runC03(c *Collector, r *Rng, thorough bool) {
 						t2 := tb.Clone()
 						body(t2).Kids[0].Width = wd
 						check(fmt.Sprintf("protected-len-%d-head-width-%d", target, wd), t2.Ser(), ext, k, verifier)
+					}
+				}
+			}
+			if rk, ok := k.priv.(*rsa.PrivateKey); ok {
+				// RSASSA-PSS signatures over the right structure but with a salt length other than the hash
+				// length (RFC 8230 section 2 fixes it): not valid signatures for PS256/384/512
+				bd := body(base)
+				tbs := refArray(refTstr("Signature1"), refBstr(bd.Kids[0].Str), refBstr(orEmpty(ext)), refBstr(bd.Kids[2].Str))
+				for _, salt := range []int{0, 7, rsa.PSSSaltLengthAuto} {
+					if sg, err := rsa.SignPSS(r, rk, algHash(k.alg), digestOf(algHash(k.alg), tbs), &rsa.PSSOptions{SaltLength: salt}); err == nil {
+						t := base.Clone()
+						body(t).Kids[3] = wBstr(sg, -1)
+						check(fmt.Sprintf("pss-salt-length-%d", salt), t.Ser(), ext, k, verifier)
 					}
 				}
 			}
